@@ -191,18 +191,29 @@ class Check(PropertyCheck):
                         fin.close()
                     time.sleep(0.6)
                     got = bytearray()
-                    try:
-                        while True:
+                    import select
+                    deadline = time.time() + vlib.hang_timeout(40)
+                    rc = None
+                    while True:
+                        ready, _, _ = select.select([p.stdout], [], [], max(0.0, min(1.0, deadline - time.time())))
+                        if ready:
                             b = os.read(p.stdout.fileno(), 4096)
                             if not b:
                                 break
                             got += b
                             if len(got) < 65536:
                                 time.sleep(0.002)
-                        rc = p.wait(timeout=30)
-                    except subprocess.TimeoutExpired:
-                        p.kill()
-                        rc = 124
+                        elif time.time() >= deadline:       # no output and no end of file: the program hangs
+                            p.kill()
+                            vlib.note_hang()
+                            rc = 124
+                            break
+                    if rc is None:
+                        try:
+                            rc = p.wait(timeout=30)
+                        except subprocess.TimeoutExpired:
+                            p.kill()
+                            rc = 124
                     err = p.stderr.read().decode("latin-1")[-200:]
                     if rc != 0 or bytes(got) != data:
                         out.append(Violation("cdf-copy-mismatch", "lbzip2 -cdf -n2 with a slow consumer of standard output (%s input, %d bytes): exit %s, "
